@@ -2815,7 +2815,8 @@ class Stream:
         try:
             file_stat = os.stat(obj.name)
             buffer_size = file_stat.st_blksize
-        except (FileNotFoundError, PermissionError, OSError):
+        except (FileNotFoundError, PermissionError, OSError, AttributeError, TypeError):
+            # In-memory streams (ex. io.BytesIO) have no usable 'name' to stat
             buffer_size = 8192
 
         self._obj = obj
